@@ -243,6 +243,29 @@ def A3u(ctx: Ctx) -> RuleResult:
     return r
 
 
+def A3r(ctx: Ctx) -> RuleResult:
+    r = RuleResult('A3r', 'predicate root: predicate_from_expression rejects a non-boolean root with TypeError before anything else; HplPredicateExpression casts its expression to BOOL')
+    fi = ctx.model.func('hpl.ast.predicates', 'predicate_from_expression', 'A3r')
+    e = Sym('expr', 'HplExpression')
+    outs = ctx.ev.run(fi, {fi.params()[0]: e})
+    rej = False
+    for o in outs:
+        gs = norm_guards(o.guards)
+        boolish = [pol for t, pol in gs if any((isinstance(x, Attr) and x.name in ('can_be_bool',)) or (isinstance(x, Op) and x.op == '&' and 'BOOL' in repr(x)) for x in walk(t))]
+        if o.kind == 'raise' and 'TypeError' in repr(o.value) and boolish == [False] and len(gs) == 1:
+            rej = True
+        if o.kind != 'raise' and (not boolish or boolish[0] is not True):
+            r.fail('predicate_from_expression:root', f'a path builds a predicate without having established that the root can be boolean: [{guards_repr(gs)[:100]}] (a non-boolean literal would reach the literal fast path and its assertion)', fi.where)
+    (r.ok('predicate_from_expression: not can_be_bool -> TypeError, first') if rej else r.fail('predicate_from_expression:reject', 'no leading path raises TypeError for a root that cannot be boolean', fi.where))
+    c = ctx.model.cls('HplPredicateExpression', 'A3r')
+    got = field_narrowings(ctx, c, c.field('expression'))
+    if any(g[1] == ('const', {'BOOL'}) and g[2] for g in got):
+        r.ok('HplPredicateExpression.expression: cast to BOOL on construction')
+    else:
+        r.fail('HplPredicateExpression.expression:root', f'the stored expression is not narrowed to BOOL: {got}', c.where)
+    return r
+
+
 def A3p(ctx): return A3(ctx, 'present', 'A3p')
 def A3n(ctx): return A3(ctx, 'notnarrow', 'A3n')
 
@@ -302,6 +325,26 @@ def _quantifier_var(ctx: Ctx, r: RuleResult):
         r.ok('HplQuantifier: occurrences of the bound variable in the body are type-checked against the element type of the domain')
     else:
         r.fail('HplQuantifier.condition:var-type', 'occurrences of the bound variable are not checked against the element type of the domain', c.where)
+    # the element type is taken from the domain for set AND range literals
+    dom = Attr(self_t, 'domain')
+    kinds_using_subtypes = set()
+    for vfi in c.all_validators('condition'):
+        params = vfi.params()
+        outs = ctx.ev.run(vfi, {params[0]: self_t, params[2]: Sym('value')}, self_cls=c)
+        for o in outs:
+            uses_sub = any(isinstance(x, Attr) and x.base == dom and x.name == 'subtypes' for t in all_terms([o]) for x in walk(t))
+            if not uses_sub:
+                continue
+            for t, pol in norm_guards(o.guards):
+                if pol:
+                    for x in walk(t):
+                        if isinstance(x, Attr) and x.base == dom and x.name in ('is_set', 'is_range'):
+                            kinds_using_subtypes.add(x.name)
+    for k, label in (('is_set', 'set'), ('is_range', 'range')):
+        if k in kinds_using_subtypes:
+            r.ok(f'HplQuantifier: bound variable typed by the element type of a {label} literal domain')
+        else:
+            r.fail(f'HplQuantifier.condition:var-type:{label}', f'for a {label} literal domain the bound variable is not typed by the element type of the domain (falls back to PRIMITIVE): "forall i in [0 to 3]: @i" would be accepted', c.where)
 
 
 # ------------------------------------------------------------------ A4
@@ -563,4 +606,4 @@ def A6(ctx: Ctx) -> RuleResult:
     return r
 
 
-RULES = {'A1': A1, 'A2': A2, 'A3': A3, 'A3u': A3u, 'A3p': A3p, 'A3n': A3n, 'A4': A4, 'A5': A5, 'A6': A6}
+RULES = {'A1': A1, 'A2': A2, 'A3': A3, 'A3u': A3u, 'A3r': A3r, 'A3p': A3p, 'A3n': A3n, 'A4': A4, 'A5': A5, 'A6': A6}
